@@ -282,9 +282,10 @@ func (o *ObjectSchema) extractPropertyValue(propertyID string, v reflect.Value, 
 
 	if property.emptyIsDefault {
 		// Handle the case where the empty value corresponds to the default value.
-		defaultValue := reflect.New(property.ReflectedType()).Elem().Convert(valPtr.Type()).Interface()
 		// DeepEqual, as in validateStruct: == panics on slices and maps.
-		if reflect.DeepEqual(defaultValue, value) {
+		// (A property type that cannot be converted to the field type has no empty value to compare with.)
+		zeroValue := reflect.New(property.ReflectedType()).Elem()
+		if zeroValue.CanConvert(valPtr.Type()) && reflect.DeepEqual(zeroValue.Convert(valPtr.Type()).Interface(), value) {
 			return nil, nil
 		}
 	}
@@ -425,8 +426,9 @@ func (o *ObjectSchema) validateStruct(data any) error {
 		value := valPtr.Interface()
 		if property.emptyIsDefault {
 			// Handle the case where the empty value corresponds to the default value.
-			defaultValue := reflect.New(property.ReflectedType()).Elem().Convert(valPtr.Type()).Interface()
-			if reflect.DeepEqual(defaultValue, value) {
+			// (A property type that cannot be converted to the field type has no empty value to compare with.)
+			zeroValue := reflect.New(property.ReflectedType()).Elem()
+			if zeroValue.CanConvert(valPtr.Type()) && reflect.DeepEqual(zeroValue.Convert(valPtr.Type()).Interface(), value) {
 				continue
 			}
 		}
